@@ -436,7 +436,13 @@ def _v_alldiff_min_ub(tree):
     g.body = M.stmts("lo = min((v.lb for v in variables))\nhi = min((v.ub for v in variables))\nfor val in range(lo, hi + 1):\n    lits = []\n    for var in variables:\n        if val in var.bool_vars:\n            lits.append(var.bool_vars[val])\n    if len(lits) > 1:\n        self._encode_at_most_one(lits)")
 
 
+def _v_linear_chain_without_empty_domain_guard(tree):
+    g = M.find_func(tree, "SATEncoder._encode_ne_expr")
+    M.replace_stmt(g, lambda st: isinstance(st, ast.If) and M.src_is(st.test, "not sums"), [])
+
+
 VARIANTS = [
+    M.Variant("linear chain takes min() of an empty set when a term has no values (original defect: the SAT back-end crashes where DFS says INFEASIBLE)", ENC, _v_linear_chain_without_empty_domain_guard, "C05-O14"),
     M.Variant("a second variable may take a name already in use (original defect)", CP, _v_duplicate_names_accepted, "C05-O13"),
     M.Variant("Model.add stores whatever it is given (original defect)", CP, _v_add_accepts_anything, "C05-O13"),
     M.Variant("sum_le stores the caller's list instead of a snapshot (seed C05-N)", CP, _v_sum_stores_callers_list, "C05-O13"),
